@@ -286,6 +286,9 @@ def main():
             return 2
         if a[0] == "--setup":
             return setup()
+        if a[0] == "--selftest":
+            import selftest
+            return selftest.main(a[1:])
         if a[0] == "--replay":
             with open(a[1]) as f:
                 rp = json.load(f)
